@@ -59,12 +59,39 @@ func runC16(ctx *Ctx) {
 			}
 		}
 	}
+	// binary boundaries: initial IMSIs whose numeric value lies 5000 (and 2704) below a multiple of 2^k, k = 24..49, so
+	// that the population straddles it (an intermediate of 32 bits, a float mantissa ... shows only there)
+	for _, plmn := range []string{"00101", "20893", "001001", "310410"} {
+		for _, total := range []int{15, 14} {
+			L := total - len(plmn)
+			limit := int64(1)
+			for i := 0; i < L; i++ {
+				limit *= 10
+			}
+			var base int64
+			fmt.Sscan(strings.TrimLeft(plmn, "0")+strings.Repeat("0", L), &base)
+			for k := uint(24); k <= 49; k++ {
+				step := int64(1) << k
+				for _, below := range []int64{5000, 2704} {
+					m := (base/step+1)*step - below
+					if m < base || m+int64(pop) >= base+limit {
+						continue
+					}
+					imsi := fmt.Sprintf("%0*d", total, m)
+					if !seen[imsi] {
+						seen[imsi] = true
+						cfgs = append(cfgs, cfg{imsi, len(plmn) - 3})
+					}
+				}
+			}
+		}
+	}
 	creds := [][3]string{
 		{"465B5CE8B199B49FAA5F0A2EE238A6BC", "E8ED289DEBA952E4283B54E88E6183CA", "E8ED289DEBA952E4283B54E88E6183CA"},
 		{"00000000000000000000000000000000", "", "ffffffffffffffffffffffffffffffff"},
 		{"465b5ce8b199b49faa5f0a2ee238a6bc", "cd63cb71954a9f4e48a5994e37a02baf", ""},
 	}
-	r.Rule = fmt.Sprintf("for each of %d initial IMSIs (leading zeros, 2-/3-digit MNC, 13..15 digits, MSIN ending ...0000/...9990/...99999, and MSINs around every power of ten of the MSIN for 4 PLMNs and 11..15 digits) x %d credential triples: CreateUE for EVERY index 0..%d exactly as main() calls it; "+
+	r.Rule = fmt.Sprintf("for each of %d initial IMSIs (leading zeros, 2-/3-digit MNC, 13..15 digits, MSIN ending ...0000/...9990/...99999, MSINs around every power of ten of the MSIN for 4 PLMNs and 11..15 digits, and IMSIs whose value lies just below a multiple of 2^k, k=24..49, so that the population straddles it) x %d credential triples: CreateUE for EVERY index 0..%d exactly as main() calls it; "+
 		"plus every history of <=3 CreateUE calls over 8 credential triples with shared substrings; oracle: SUPIs pairwise distinct, 'imsi-' + same number of digits, same MCC/MNC prefix, all decimal; RAN-UE-NGAP-IDs pairwise distinct; K/OP/OPc carried unchanged; security capability octets == 0x80>>alg for the context's algorithms (also for all 4x4 algorithm pairs); "+
 		"non-trivial = index>0; distinct = (config, credential, index)", len(cfgs), len(creds), pop-1)
 	type job struct {
